@@ -3,7 +3,7 @@ import json, os
 from sa import pat as P
 from sa.cfg import cfg
 from sa.expr import ex, show, walk, cond_exprs, const_val
-from sa.facts import const_of, norm
+from sa.facts import const_of, norm, place_of
 from sa.util import (gate, table, fmt_conds, describe_table, require_callers, require_writers, field_assignments, the_closure,
                      return_blocks, glob_any, local_assignments)
 from sa.dataflow import accesses, writers, readers
@@ -28,6 +28,7 @@ RULES = {
     'R3': 'cache re-attachment dominates publication of the restored state',
     'R4': 'config argument applied after restore; field exhaustiveness of set_config_no_verification',
     'R5': 'layout agreement of the upgrade memory region',
+    'R6': 'WRITES(REACH(pre_upgrade, post_upgrade) minus the explicit config argument) ⊆ reviewed table of transient / derived fields',
 }
 ASSUMPTIONS = ['serde derive writes exactly the fields passed to serialize_field; ciborium round-trips them',
                'ic-stable-structures maps persist across upgrades when re-initialised on the same MemoryId']
@@ -115,6 +116,7 @@ def run(ctx):
     r1(ctx)
     r2_r3_r4(ctx)
     r5(ctx)
+    r6(ctx)
     # evidence (c) for CachedBlock.fee_rates: the recompute arm yields what the insertion-time cache held —
     # same fee computation, same transaction order, same selection window (shared with C15.R2/R3)
     from sa.engine import SubCtx
@@ -326,3 +328,106 @@ def r5(ctx):
     lw = e1.operand(le_w[0].args[0]) if le_w else None
     good = bool(le_w) and bool(le_r) and P.cast(P.length(P.anything), 'u32')(lw)
     ctx.check(good, 'R5', 'length-encoding', le_w[0] if le_w else pre, 'length is a u32, little endian, on both sides', 'length encoding differs between pre_upgrade and post_upgrade')
+
+
+# ---- R6: what the upgrade hooks themselves write -------------------------------------------------
+# Everything the hooks write into the restored state, other than applying the explicit upgrade
+# argument, must be transient or derived: a hook that also resets configuration, the fee cache or any
+# other carried field makes the upgrade visible. Confirmed by reading; one line of reason each.
+UPGRADE_WRITES = {
+    'SyncingState.is_fetching_blocks': 'transient fetch mutex: an interrupted call will never complete (C13)',
+    'SyncingState.response_to_process': 'transient partial reply of the interrupted fetch (C13); re-fetched',
+    'GenericUnstableBlocks.tip_depths_cache': 'derived cache, rebuilt from the tree (serde default for older state)',
+}
+
+
+def _field_path(place, st_adts):
+    out = []
+    for e in place['p']:
+        if isinstance(e, dict) and 'field' in e and 'of' in e and norm(e['of']) in st_adts:
+            out.append('%s.%s' % (norm(e['of']).rsplit('::', 1)[-1], e['field']))
+    return out
+
+
+def upgrade_path_writes(prog, roots, stop):
+    """(fn, line, 'Adt.field', how) for every write into a state ADT field in the workspace functions
+    reachable from the upgrade hooks: direct assignments, call results stored into a field,
+    assignments through a `&mut` alias of a field, and `&mut field` handed to a function outside the
+    workspace (mem::take / replace / Option::take ...: the callee can overwrite it)."""
+    st_adts = {norm(a) for a in state_adts(prog)}
+    U = prog.reach(roots, dyn=True, stop=stop)
+    out = []
+    for f in U.values():
+        if stop(f):
+            continue
+        alias = {}
+        changed = True
+        while changed:
+            changed = False
+            for b in f.blocks:
+                for st in b['stmts']:
+                    d, rv = st['dst'], st.get('rv') or {}
+                    if d['p']:
+                        continue
+                    src = None
+                    if 'ref' in rv and rv.get('mut'):
+                        fp = _field_path(rv['ref'], st_adts)
+                        base = alias.get(rv['ref']['l'])
+                        src = (base or []) + fp if (fp or base) else None
+                    elif 'use' in rv and place_of(rv['use']) and not place_of(rv['use'])['p']:
+                        src = alias.get(place_of(rv['use'])['l'])
+                    if src and alias.get(d['l']) != src:
+                        alias[d['l']] = src
+                        changed = True
+        for bi, b in enumerate(f.blocks):
+            if b.get('cleanup'):
+                continue
+            for st in b['stmts']:
+                d = st['dst']
+                fp = (alias.get(d['l']) or []) + _field_path(d, st_adts) if ('deref' in d['p'] or d['l'] not in alias) else _field_path(d, st_adts)
+                if fp and (d['p']):
+                    out.append((f, st.get('line'), fp[-1], 'assign'))
+            t = b['term']
+            if t['k'] != 'call':
+                continue
+            if t.get('dst') and t['dst']['p']:
+                fp = (alias.get(t['dst']['l']) or []) + _field_path(t['dst'], st_adts)
+                if fp:
+                    out.append((f, t.get('line'), fp[-1], 'call-result'))
+            callee = t.get('callee') if isinstance(t.get('callee'), str) else None
+            cs = [c for c in f.calls() if c.bb == bi]
+            external = bool(cs) and (cs[0].callee is None or cs[0].callee not in prog.fns)
+            if external:
+                for op in t['args']:
+                    p = place_of(op)
+                    if p and not p['p'] and p['l'] in alias and alias[p['l']]:
+                        out.append((f, t.get('line'), alias[p['l']][-1], '&mut to ' + (cs[0].short or '?').rsplit('::', 2)[-1]))
+    return out
+
+
+def r6(ctx):
+    prog = ctx.prog
+    pre = ctx.fn('R6', 'ic_btc_canister::pre_upgrade')
+    post = ctx.fn('R6', 'ic_btc_canister::post_upgrade')
+    if not (pre and post):
+        return
+
+    def stop(f):
+        it = f.impl_trait or ''
+        return ('serde' in it or 'Deserialize' in f.short or '__Visitor' in f.short or '__FieldVisitor' in f.short
+                or f.short.startswith('ic_btc_canister::api::set_config::set_config_no_verification'))
+    ws = upgrade_path_writes(prog, [pre, post], stop)
+    seen = {}
+    for f, line, fld, how in ws:
+        ctx.touch(f)
+        seen.setdefault(fld, []).append((f, line, how))
+    ctx.floor('R6', 'state fields written on the upgrade path', len(seen), 3)
+    for fld, sites in sorted(seen.items()):
+        f, line, how = sites[0]
+        ctx.check(fld in UPGRADE_WRITES, 'R6', 'upgrade-writes:' + fld, '%s:%s' % (f.file, line),
+                  'the upgrade hooks write `%s` (%s): %s' % (fld, how, UPGRADE_WRITES.get(fld, '')),
+                  'the upgrade hooks overwrite `%s` (%s in %s) — a field that is carried across the upgrade is changed by the upgrade itself, '
+                  'so the answers after the upgrade differ from those of a canister that was not upgraded' % (fld, how, f.short))
+    for fld in ('SyncingState.is_fetching_blocks', 'SyncingState.response_to_process'):
+        if fld not in seen:
+            ctx.bad('R6', 'upgrade-writes:' + fld, post, 'the transient field `%s` is no longer reset on the upgrade path' % fld)
